@@ -64,6 +64,9 @@ def gen_label(rng, n=None):
 
 
 def gen_ipv4(rng):
+    if rng.random() < 0.06:
+        q = ".".join(str(rng.choice([100, 199, 200, 249, 250, 255, 256, rng.randrange(100, 256)])) for _ in range(4))
+        return (q + rng.choice(["", ".", ".", ".."])).encode()
     k = rng.choice([1, 2, 3, 4, 4, 4, 5])
     parts = []
     for i in range(k):
@@ -114,8 +117,17 @@ def gen_ipv6(rng):
         n = rng.randrange(0, 7)
         k = rng.randrange(0, n + 1)
         v4 = ".".join(str(rng.choice([0, 1, 9, 10, 255, 256, rng.randrange(256)])) for _ in range(rng.choice([4, 4, 4, 3, 5])))
-        if rng.random() < 0.5:
+        f = rng.random()
+        if f < 0.35:
             s = ":".join(piece() for _ in range(6)) + ":" + v4
+        elif f < 0.55:
+            # any number of pieces in front of the dotted tail (too few, exactly six, too many: five..eight)
+            s = "".join(piece() + ":" for _ in range(rng.choice([0, 1, 4, 5, 6, 7, 7, 8]))) + v4
+        elif f < 0.7:
+            # '::' plus so many pieces that the tail starts at piece 5, 6, 7 or 8
+            m = rng.choice([4, 5, 6, 6, 7, 7])
+            j = rng.randrange(0, m + 1)
+            s = ":".join(piece() for _ in range(j)) + "::" + "".join(piece() + ":" for _ in range(m - j)) + v4
         else:
             s = ":".join(piece() for _ in range(k)) + "::" + "".join(piece() + ":" for _ in range(n - k)) + v4
     else:
